@@ -1,11 +1,13 @@
----- MODULE MC ----
+---- MODULE MC_CertAuth ----
 EXTENDS CertAuth
 Ru(p, rq, f) == [prefix |-> p, require |-> rq, fps |-> f]
 MCRules == { <<Ru(<<"app","public">>, FALSE, NoList), Ru(<<"app">>, TRUE, NoList), Ru(<<"admin">>, TRUE, List({"c1"}))>>,
              <<Ru(<<"app">>, TRUE, NoList)>>,
              <<Ru(<<"admin">>, TRUE, List({}))>>,
+             <<Ru(<<"admin">>, FALSE, List({}))>>,
              <<Ru(<<"admin">>, FALSE, List({"c1"}))>>,
              <<Ru(<<>>, TRUE, NoList)>>,
              <<Ru(<<"app">>, TRUE, List({"c2"})), Ru(<<"app","public">>, FALSE, NoList)>>,
+             <<Ru(<<"app","public">>, FALSE, NoList), Ru(<<>>, TRUE, List({"c1","c2"}))>>,
              <<>> }
 ====
